@@ -783,9 +783,16 @@ def _parse_source_for_lambda(
 
     # If this is a function, then things are going to be very easy.
     if start_token.string == "def":
-        function_source = _realign_indent(inspect.getsource(ast_source))
-        a_module = ast.parse(function_source)
-        lda = rewrite_func_as_lambda(a_module.body[0])  # type: ignore
+        # An indented function is parsed inside an `if` block rather than by cutting its
+        # indentation off every line (a continuation line or a multi-line string may be indented
+        # less than the `def`).
+        raw_source = inspect.getsource(ast_source)
+        if raw_source[:1] in (" ", "\t"):
+            a_module = ast.parse("if True:\n" + raw_source)
+            func_def = a_module.body[0].body[0]  # type: ignore
+        else:
+            func_def = ast.parse(raw_source).body[0]
+        lda = rewrite_func_as_lambda(func_def)  # type: ignore
     else:
         # Grab all the lambdas on a single line
         lambdas_on_a_line = defaultdict(list)
